@@ -416,3 +416,12 @@ def seed_from_env() -> int:
         return int(os.environ.get("VERIF_SEED", "20240601"))
     except ValueError:
         return 20240601
+
+
+# --------------------------------------------------------------------------
+# Worker pool (implementation side fans out over the cores)
+# --------------------------------------------------------------------------
+def pool(n=16):
+    import multiprocessing as mp
+    ctx = mp.get_context("fork")
+    return ctx.Pool(n)
